@@ -329,9 +329,9 @@ class MidiFile:
         if self.type == 2:
             raise TypeError("can't merge tracks in type 2 (asynchronous) file")
 
-        if self._merged_track is None:
-            self._merged_track = merge_tracks(self.tracks, skip_checks=True)
-        return self._merged_track
+        # Merged afresh on every access: the tracks and their messages are
+        # plain mutable objects, so a cached merge would silently go stale.
+        return merge_tracks(self.tracks, skip_checks=True)
 
     @merged_track.deleter
     def merged_track(self):
